@@ -1,7 +1,8 @@
 """C20 — Bloom filters: no false negatives, Parquet split-block algorithm, XXH64."""
 from e1 import E1
+from e2 import E2
 FILES = ['src/metadata/bloom_filter.c', 'src/util/xxhash.c']
-BUDGET = {'quick': 600, 'thorough': 2400}
+BUDGET = {'quick': 840, 'thorough': 2400}
 SRC = ['src/metadata/bloom_filter.c', 'src/util/xxhash.c']
 FN_BLOOM = ['carquet_bloom_filter_from_data', 'carquet_bloom_filter_insert_hash', 'carquet_bloom_filter_check_hash',
             'bloom_filter_block_index', 'bloom_filter_block_insert', 'bloom_filter_block_check']
@@ -52,4 +53,12 @@ def obligations(tier):
     for ln in lens:
         o.append(E1('xxh64/len%d' % ln, H, ['src/util/xxhash.c'], ['-DMODE=6', '-DLEN=%d' % ln, '-DNB=1'], unwind=ln + 4, backends=MUL, timeout=300,
                     bounds='length %d, every byte value, every 64-bit seed' % ln, functions=['carquet_xxhash64'], stub_realloc=False))
+    # E2 (symx) half: whole API with several blocks (the engine forks over the block index) and typed inserts for every bit pattern
+    H2 = 'harness/e2/c20_bloom.c'
+    for nb in ([2, 3] if quick else [2, 3, 5, 8]):
+        o.append(E2('api-conformance/nb%d' % nb, H2, SRC, ['-DMODE=1', '-DNB=%d' % nb], leaks=True, timeout=600, fork_max=16,
+                    bounds='arbitrary state of %d blocks, symbolic 64-bit hashes h, h2: every byte after insert_hash compared with the reference split-block algorithm' % nb))
+    for t, nm in enumerate(['i32', 'i64', 'float', 'double', 'bytes5']):
+        o.append(E2('typed-insert-e2/%s' % nm, H2, SRC, ['-DMODE=2', '-DNB=2', '-DTYPED=%d' % t], leaks=True, timeout=600, fork_max=16,
+                    bounds='arbitrary 2-block state, EVERY bit pattern of the value (floats/doubles incl. NaN payloads and -0.0)'))
     return o
